@@ -166,6 +166,24 @@ let exec (s : t) (verbose : bool) (f : string array) (obs : string option) : str
         | (OpenOk (d', _), _) -> "ok " ^ d1 ^ " / " ^ dump_of d'
         | (OpenErr (e, _), _) -> "ok " ^ d1 ^ " / err " ^ eerr_name e)
      | (OpenErr (e, _), _) -> "err " ^ eerr_name e)
+  | "crashrm" ->
+    (* E crashrm <k> <entries of the merge directory already unlinked> <cfg 6 fields>: the process died inside
+       the RemoveAll that is event number k; the image is opened twice *)
+    let k = int_of_string f.(2) in
+    let gone_l = List.map fname_of_str (String.split_on_char ',' f.(3)) in
+    let gone (x : fname) = List.mem x gone_l in
+    let c = { c_fsize = n_of_string f.(4); c_sync = n_of_string f.(5); c_bps = n_of_string f.(6);
+              c_io = n_of_string f.(7) } in
+    let evs = List.rev s.all_events in
+    recorder := (fun _ -> ());
+    (match crash_open_rm c evs (nat_of_int k) gone with
+     | (OpenOk (d, kd), _) ->
+       let d1 = dump_of d in
+       let (k2, _) = db_close d kd in
+       (match db_open c k2 with
+        | (OpenOk (d', _), _) -> "ok " ^ d1 ^ " / " ^ dump_of d'
+        | (OpenErr (e, _), _) -> "ok " ^ d1 ^ " / err " ^ eerr_name e)
+     | (OpenErr (e, _), _) -> "err " ^ eerr_name e)
   | "crashmerge" ->
     (* E crashmerge <k> none <cfg 6 fields> <key>: open the crash image, delete <key>, Merge (scan order
        observed), close, open, dump, close, open, dump *)
